@@ -844,6 +844,9 @@ class Message:
         Payload.Type.DELETE: PayloadDELETE,
     }
 
+    # True for a parsed message whose payloads came out of an SK payload with a valid integrity checksum
+    is_protected = False
+
     def __init__(self, spi_i, spi_r, major, minor, exchange_type, is_response, can_use_higher_version, is_initiator,
                  message_id, payloads, encrypted_payloads, crypto=None, iv=None):
         self.spi_i = spi_i
@@ -942,6 +945,7 @@ class Message:
                 # parse decrypted payloads and remove Payload SK
                 message.iv, decrypted_data = payload_sk.decrypt(crypto)
                 message.encrypted_payloads = cls._parse_payloads(decrypted_data, payload_sk.next_payload_type)
+                message.is_protected = True
 
         return message
 
